@@ -68,6 +68,8 @@ def check(ctx, rep):
     rep.rule("R02c", "no unguarded partial operation on request data in any protocol test or constructor", floor=5)
     rep.rule("R02d", "each shipped protocol list contains a catch-all per TLS parity, with nothing of that parity after it", floor=4)
     rep.rule("R02e", "protocol tests have no global/time/random/file-system effects", floor=6)
+    rep.rule("R02h", "representative request lines are claimed by the protocol whose documented shape they have: constructor and test of every "
+             "listed protocol evaluated in list order, per TLS parity", floor=1)
     rep.rule("R02g", "WAP auto-detection agrees with the header table headerslurp() builds (evaluated on 7 header blocks)", floor=7)
     rep.rule("R02f", "sniff: recv(1, MSG_PEEK) only; TLS wrap iff the byte is 0x16; done in the worker, result passed on", floor=4)
     rep.assume("socketserver.StreamRequestHandler keeps the accepted socket in self.request / self.connection")
@@ -226,6 +228,7 @@ def check(ctx, rep):
     memo_obligations(ctx, rep, "R02e", eff, reach)
 
     wap_autodetect_obligations(ctx, rep, "R02g")
+    classification_obligations(ctx, rep, "R02h")
 
     # ------------------------------------------------------------------ R02f
     bs = ctx.cls("server.BaseServer")
@@ -361,6 +364,106 @@ def check(ctx, rep):
 
 
 # ---------------------------------------------------------------------------- R02g
+CLASSIFICATION = [
+    # (request line, TLS?, class that has to claim it)
+    ("/docs/a.txt\r\n", False, "GopherProtocol"), ("/docs/a.txt\r\n", True, "SecureGopherProtocol"),
+    ("\r\n", False, "GopherProtocol"), ("\n", True, "SecureGopherProtocol"),
+    ("/search\tsome words\r\n", False, "GopherProtocol"), ("/search\tsome words\r\n", True, "SecureGopherProtocol"),
+    ("/search\t\r\n", False, "GopherProtocol"), ("/search\tq\t\r\n", False, "GopherProtocol"), ("/search\t\r\n", True, "SecureGopherProtocol"),
+    ("/a\tb\tc\td\r\n", False, "GopherProtocol"),
+    ("/docs/a.txt\t+\r\n", False, "GopherPlusProtocol"), ("/docs/a.txt\t+\r\n", True, "SecureGopherPlusProtocol"),
+    ("/docs/a.txt\t!\r\n", False, "GopherPlusProtocol"), ("/docs\t$\r\n", False, "GopherPlusProtocol"),
+    ("/docs/a.txt\t+text/plain\r\n", False, "GopherPlusProtocol"), ("/search\twords\t+\r\n", False, "GopherPlusProtocol"),
+    ("/search\twords\t$\r\n", True, "SecureGopherPlusProtocol"), ("/x\t!x\r\n", False, "GopherProtocol"),
+    ("GET /docs/a.txt HTTP/1.0\r\n", False, "HTTPProtocol"), ("HEAD / HTTP/1.1\r\n", False, "HTTPProtocol"),
+    ("GET /docs/a.txt HTTP/1.0\r\n", True, "HTTPSProtocol"), ("GET /wap/docs HTTP/1.0\r\n", False, "WAPProtocol"),
+    ("GET /wap HTTP/1.0\r\n", False, "WAPProtocol"), ("POST / HTTP/1.0\r\n", False, "GopherProtocol"),
+    ("GET /docs/a.txt\r\n", False, "GopherProtocol"),
+    ("gemini://host.example/docs/a.txt\r\n", True, "GeminiProtocol"), ("gemini://host.example/docs/a.txt\r\n", False, "GopherProtocol"),
+    ("host.example /docs/a.txt 0\r\n", False, "SpartanProtocol"), ("host.example /upload 12\r\n", False, "SpartanProtocol"),
+    ("host.example /docs/a.txt 0\r\n", True, "SecureGopherProtocol"), ("host.example /docs/a.txt x\r\n", False, "GopherProtocol"),
+]
+
+
+def classification_obligations(ctx, rep, rule="R02h"):
+    """For each shipped protocol list: the constructor and canhandlerequest() of every listed class are evaluated on
+    representative first lines (walker, constants), in list order; the first class that accepts has to be the one whose
+    documented shape the line has.  Lines the evaluator cannot decide are skipped (counted in the evidence)."""
+    from ..paths import Const, Walker
+
+    prog = ctx.prog
+    try:
+        lists = {k: v for k, v in ctx.protocol_lists().items() if not k.startswith("!")}
+    except Exception:
+        lists = {}
+    undecided = 0
+    for rel, classes in sorted(lists.items()):
+        names = {c.name for c in classes}
+        problems = []
+        n = 0
+        for line, tls, want in CLASSIFICATION:
+            if want not in names:
+                continue
+            winner = None
+            for P in classes:
+                init = prog.resolve_method(P, "__init__")
+                can = prog.resolve_method(P, "canhandlerequest")
+                # a constructor that only hands *args on is skipped
+                while init is not None and len(init.params) < 2 and init.node.args.vararg is not None and init.cls is not None:
+                    init = prog.resolve_method(P, "__init__", after=init.cls)
+                if init is None or can is None:
+                    winner = "?"
+                    break
+
+                def cv(call, target, st, _tls=tls):
+                    f = call.func
+                    if isinstance(f, ast.Attribute) and f.attr == "check_tls":
+                        return Const(_tls)
+                    if isinstance(f, ast.Attribute) and f.attr == "headerslurp":
+                        st.facts["self.httpheaders"] = Const({})
+                        return Const(None)
+                    if isinstance(f, ast.Attribute) and f.attr == "get" and "config" in norm(f.value) and len(call.args) == 2 \
+                            and isinstance(call.args[1], ast.Constant) and call.args[1].value == "waptop":
+                        return Const("/wap")
+                    return None
+
+                inl = lambda fn, t, d: d < 4 and (t.bound_cls is not None or fn.name in ("__init__", "canhandlerequest")  # noqa: E731
+                                                  or (fn.cls is None and fn.module.name.startswith("pygopherd.protocols"))) and fn.name != "headerslurp"
+                w0 = Walker(prog, ctx.resolver, call_value=cv, exact_loops=True, unroll=8, inline=inl)
+                reqparam = init.params[1] if len(init.params) > 1 else "request"
+                try:
+                    ip = [p for p in w0.run(init, P, env={reqparam: Const(line)}) if p.kind != "raise"]
+                except Exception:
+                    ip = []
+                if len(ip) != 1:
+                    winner = "?"
+                    break
+                facts = {k: v for k, v in ip[0].state.facts.items() if k.startswith("self.") and v.kind == "const"}
+                w1 = Walker(prog, ctx.resolver, call_value=cv, exact_loops=True, unroll=8, inline=inl, assumptions=facts)
+                verdicts = set()
+                try:
+                    for p in w1.run(can, P, facts=dict(facts)):
+                        verdicts.add("raise" if p.kind == "raise" else truth(p.value) if p.kind == "return" else False)
+                except Exception:
+                    verdicts = {None}
+                if verdicts == {True}:
+                    winner = P.name
+                    break
+                if verdicts != {False}:
+                    winner = "?"
+                    break
+            if winner == "?":
+                undecided += 1
+                continue
+            n += 1
+            if winner != want:
+                problems.append(f"the {'TLS' if tls else 'plaintext'} line {line!r} is claimed by {winner or 'no protocol'} instead of {want}")
+        rep.add(rule, f"{rel}: representative lines are claimed by the documented protocol [{n} lines]", not problems, rel,
+                "; ".join(problems[:3]) if problems else ("" if n >= 10 else f"only {n} lines could be evaluated by the walker"), key=f"{rule}|{rel}",
+                nontrivial=n >= 10)
+    rep.extra["classification_undecided"] = undecided
+
+
 def wap_autodetect_obligations(ctx, rep, rule="R02g"):
     """WAP auto-detection reads the header table that HTTPProtocol.headerslurp() writes: the two have to agree on what a
     stored value looks like.  headerslurp() is evaluated by the walker on a scripted header block (exact loops), then
